@@ -9,6 +9,7 @@
 #include "engines/gama_net.h"
 #include "engines/procemu.h"
 #include "engines/xmlscan.h"
+#include "engines/io_events.h"
 #include <map>
 
 using namespace sim;
@@ -101,6 +102,10 @@ bool compare_results(const std::string& a, const std::string& b, std::string& wh
       if (leaf == "obs" || leaf == "adj") tol = coord_tol * std::max(1.0, std::fabs(x) * 1e-3);   // metres or gon
       else if (leaf == "stdev") tol = 2e-3 * std::max(1.0, std::fabs(x));
       else tol = 2e-3 * std::max(1.0, std::fabs(x)) + 2e-3;                                    // qrr, f, std-residual, err-obs, err-adj: three printed decimals
+      // with instrument heights gama-local stops refining a reduction when it changes by less than 0.1 cc: a residual
+      // may differ by that much between a run that iterated and one that starts from the adjusted coordinates, which
+      // is 0.05 of a standard deviation of a few cc
+      if (leaf == "std-residual" && g_has_dh) tol += 0.05;
     }
     else tol = 5e-3 * std::max(1.0, std::fabs(x));                                           // sums of squares, m0, ratios (second-order effects of restarting from the adjusted coordinates)
     if (std::fabs(x - y) <= tol) continue;
@@ -515,6 +520,14 @@ Plan RestartEngine::generate(uint64_t seed, uint64_t, const std::string&)
   p.set("doc", to_hex(g_docs[di].bytes));
   // the dense algorithms are cubic in the network size and slow under the sanitizers: large networks run with envelope
   p.seti("alg", g_docs[di].bytes.size() > 5000 ? 0 : (long long)g.below(4));
+  if (g.chance(1, 5)) {
+    // a grammar-derived network instead of an archive document (C13: "all generated networks incl. every observation /
+    // cluster type"): three fixed points, one or two points to be determined with or without given coordinates,
+    // enough observations of mixed kinds to determine them, a few more at random, sometimes vectors and levelling.
+    // The document is built here, carried in the plan as text, and shrunk like any other.
+    std::string doc = ioev::tidy_network(g);
+    p.set("name", "synthetic-gkf"); p.set("doc", to_hex(doc)); p.seti("alg", (long long)g.below(4));
+  }
   p.seti("rounds", 3);
   p.seti("chunkseed", (long long)g.below(1u << 30));
   // options that cannot legitimately change a number
